@@ -50,7 +50,8 @@ def corpus():
 def gen_cases(rng, tier):
     n = 250 if tier == 'quick' else 8000
     for _ in range(n):
-        case = ctl.normalise_case(ctl.gen_session(rng, n_steps=rng.choice([10, 25, 45]), events=rng.random() < 0.3, listeners=False, loss=False, reenter=True))
+        case = ctl.normalise_case(ctl.gen_session(rng, n_steps=rng.choice([10, 25, 45]), events=rng.random() < 0.3, listeners=False, loss=False, reenter=True,
+                                                  debug=rng.random() < 0.2))
         yield ctlprop.to_json_case(case)
         yield ctlprop.to_json_case(ctlprop.rechunk(case, 'bytewise', rng))
         yield ctlprop.to_json_case(ctlprop.rechunk(case, 'random', rng))
